@@ -106,10 +106,10 @@ func (p *proc) output() string {
 
 type c31Case struct {
 	Tool     string `json:"tool"`
-	Creds    string `json:"creds"` // flag, env, absent
+	Creds    string `json:"creds"` // flag, env, absent; gateway only: flag-false (--auth=false), env-false (AUTH=false)
 	Password bool   `json:"password"`
 	DTLS     bool   `json:"dtls"`
-	Insecure string `json:"insecure"` // off, flag, env
+	Insecure string `json:"insecure"` // off, flag, env, flag-false (--insecure=false), env-false (INSECURE=false)
 }
 
 func runC31(c c31Case) (r vf.Result) {
@@ -130,6 +130,10 @@ func runC31(c c31Case) (r vf.Result) {
 			args = append(args, "--auth")
 		case "env":
 			env = append(env, "AUTH=true")
+		case "flag-false":
+			args = append(args, "--auth=false")
+		case "env-false":
+			env = append(env, "AUTH=false")
 		}
 	} else {
 		defer sock.Close()
@@ -155,8 +159,15 @@ func runC31(c c31Case) (r vf.Result) {
 		args = append(args, "--insecure")
 	case "env":
 		env = append(env, "INSECURE=true")
+	case "flag-false":
+		args = append(args, "--insecure=false")
+	case "env-false":
+		env = append(env, "INSECURE=false")
 	}
-	mustRefuse := c.Creds != "absent" && !c.DTLS && c.Insecure == "off"
+	// what counts is the value of an option, not whether it is mentioned
+	credsOn := c.Creds == "flag" || c.Creds == "env"
+	insecureOn := c.Insecure == "flag" || c.Insecure == "env"
+	mustRefuse := credsOn && !c.DTLS && !insecureOn
 	p, err := start(c.Tool, args, env)
 	if err != nil {
 		r.Skip = true
@@ -209,14 +220,21 @@ func runC31(c c31Case) (r vf.Result) {
 func TestC31CLI(t *testing.T) {
 	vf.Check(t, vf.Prop[c31Case]{
 		ID: "C31", Name: "cli-refuses-plaintext",
-		Rule: "exhaustive: {bisquitt, bisquitt-pub, bisquitt-sub} x credentials {--auth / --user by flag, by environment variable, absent} x {--password given, absent} x {--dtls --self-signed on, off} x {--insecure off, flag, environment}: 108 process runs against loopback sockets; every combination is a distinct non-trivial case. The tool must refuse (non-zero exit, no datagram sent / UDP port never bound) iff credentials are configured, DTLS is off and --insecure is absent; otherwise it must reach the network (first datagram observed / port bound), after which it is killed.",
+		Rule: "exhaustive: {bisquitt, bisquitt-pub, bisquitt-sub} x credentials {--auth / --user by flag, by environment variable, absent} x {--password given, absent} x {--dtls --self-signed on, off} x {--insecure absent, flag, environment, present with the value false as flag or environment} (for the gateway also --auth=false / AUTH=false): 170 process runs against loopback sockets; every combination is a distinct non-trivial case. The tool must refuse (non-zero exit, no datagram sent / UDP port never bound) iff credentials are configured, DTLS is off and the insecure option is not set to true (absent, or present with the value false); otherwise it must reach the network (first datagram observed / port bound), after which it is killed.",
 		Assumptions: []string{"real processes and real time: 6 s are allowed per run and an expiry is inconclusive (skipped)", "DTLS handshakes are not completed: only the decision to proceed is observed"},
 		Exhaustive: func(tier string, yield func(c31Case)) {
 			for _, tool := range []string{"bisquitt", "bisquitt-pub", "bisquitt-sub"} {
-				for _, creds := range []string{"flag", "env", "absent"} {
+				credOpts := []string{"flag", "env", "absent"}
+				if tool == "bisquitt" {
+					credOpts = append(credOpts, "flag-false", "env-false")
+				}
+				for _, creds := range credOpts {
 					for _, pw := range []bool{false, true} {
+						if tool == "bisquitt" && pw {
+							continue // the gateway has no --password of this kind
+						}
 						for _, dtls := range []bool{false, true} {
-							for _, ins := range []string{"off", "flag", "env"} {
+							for _, ins := range []string{"off", "flag", "env", "flag-false", "env-false"} {
 								yield(c31Case{Tool: tool, Creds: creds, Password: pw, DTLS: dtls, Insecure: ins})
 							}
 						}
